@@ -11,10 +11,14 @@ MWD="${VERIF_MW:-/tmp/verif-mw}"; rm -rf "$MWD/src-snap"; mkdir -p "$MWD"; cp -r
 export VERIF_SRC="$MWD/src-snap"
 for n in $NAMES; do
   d="seeded/$n"; [ -f "$d/patch.diff" ] || continue
-  ids=$(python3 -c "import json;m=json.load(open('$d/meta.json'));print(' '.join([m['property']]+m.get('also_run',[])))")
+  if [ -n "${MATRIX_TARGET_ONLY:-}" ]; then
+    ids=$(python3 -c "import json;m=json.load(open('$d/meta.json'));print(m['property'])")
+  else
+    ids=$(python3 -c "import json;m=json.load(open('$d/meta.json'));print(' '.join([m['property']]+m.get('also_run',[])))")
+  fi
   res=$(tools/mutant_run.sh "$V/$d/patch.diff" $ids 2>&1 | grep '^mutant=')
   python3 - "$d" <<EOF
-import json,sys,re
+import json,sys,re,os
 d=sys.argv[1]
 m=json.load(open(d+'/meta.json'))
 caught=[];missed=[];detail={}
@@ -25,7 +29,14 @@ for l in '''$res'''.splitlines():
     (caught if rc==1 else missed).append(cid if rc in (0,1) else cid+'(harness-exit-%d)'%rc)
     cls=re.search(r'class=(\S+)',rest); run=re.search(r' run=(\d+)',rest)
     detail[cid]={"exit":rc,"class":cls.group(1) if cls else None,"first_run":int(run.group(1)) if run else None}
-m['caught_by']=caught; m['not_caught_by']=missed; m['check_results']=detail
+# results of this sweep replace the entries of the checks it ran; entries of other checks stay
+cr=m.get('check_results',{}) if os.environ.get('MATRIX_TARGET_ONLY') else {}
+cr.update(detail)
+m['check_results']=cr
+m['caught_by']=[c for c,v in cr.items() if v.get('exit')==1]
+m['not_caught_by']=[c+('' if v.get('exit') in (0,1) else '(harness-exit-%s)'%v.get('exit')) for c,v in cr.items() if v.get('exit')!=1]
+m['matrix_harness_commit']=os.popen('git -C /verif rev-parse --short HEAD').read().strip()
+caught=m['caught_by']; missed=m['not_caught_by']
 json.dump(m,open(d+'/meta.json','w'),indent=1)
 print(d, 'caught_by', caught, 'missed', missed)
 EOF
